@@ -115,7 +115,9 @@ def examine(traj, X, U, m, ctx, what, order):
             p = np.array(traj.positions)
             ok &= ctx.check(bool(p.min() >= 0 and p.max() < 1), f'{what}: positions outside [0,1): min={p.min()!r} max={p.max()!r}', {'input': X})
             d = geom.circ_diff(p, X)
-            ok &= ctx.check(float(d.max()) <= 1e-12, f'{what}: positions differ from the input by a non-integer (max circular diff {d.max():.3e})', {'input': X, 'positions': p})
+            # the fractional part of an input coordinate of magnitude |x| is only defined to a few ulp(|x|)
+            tol_in = max(1e-12, 8 * np.finfo(float).eps * float(np.abs(X).max()))
+            ok &= ctx.check(float(d.max()) <= tol_in, f'{what}: positions differ from the input by a non-integer (max circular diff {d.max():.3e})', {'input': X, 'positions': p})
             out['positions'] = p
         elif acc == 'displacements':
             dsp = np.array(traj.displacements)
@@ -165,6 +167,10 @@ def run_unit(unit, rng, ctx):
     names = [str(x) for x in rng.choice(['Li', 'S', 'Si', 'Na'], size=N)]
     mode = str(rng.choice(['unwrapped', 'wrapped', 'displacement']))
     K = rng.integers(-3, 4, size=U.shape).astype(float)
+    if unit['i'] % 6 == 5:
+        # images that are thousands of cells away (coordinates keep about 12 significant decimals)
+        K = np.round(K * 10.0 ** rng.uniform(1, 3.5))
+        ctx.count('cases_shifted_by_up_to_thousands_of_cells')
     U2 = U + K
     X1 = U - np.floor(U) if mode == 'wrapped' else U
     accs = ['positions', 'displacements', 'cumulative', 'distances']
